@@ -911,6 +911,17 @@ class Interp:
                         return v
                     except Unsupported:
                         pass
+            # opts auto_attrs: an attribute of self the contract does not know and that is no method of the class is SOME value
+            if self.spec.opts.get('auto_attrs') and node is not None and isinstance(node.value, ast.Name) and node.value.id == 'self':
+                methods = getattr(self.mod, '_all_methods', None)
+                if methods is None:
+                    methods = {f.name for c in ast.walk(self.mod.tree) if isinstance(c, ast.ClassDef) for f in c.body
+                               if isinstance(f, (ast.FunctionDef, ast.AsyncFunctionDef))}
+                    self.mod._all_methods = methods
+                if attr not in methods and attr not in self.spec.calls:
+                    self.st.declare_field(attr, Any)
+                    self.st.notes.append('self.%s is not named in the contract: read as an arbitrary value' % attr)
+                    return self.st.read_field(obj.t, attr)
             return VFunc('%s.%s' % (obj.cls or 'obj', attr), bound=obj)
         if isinstance(obj, (VCons, VExc)):
             if attr in obj.attrs:
